@@ -254,17 +254,20 @@ class MessagePackRpc(MessagePackDocument):
                 msgname_or_error = msgname_or_error.decode(
                                                    self.default_string_encoding)
 
-        if msgtype == MessagePackRpc.MSGPACK_REQUEST:
-            assert message == MessagePackRpc.REQUEST
+        if msgtype == MessagePackRpc.MSGPACK_REQUEST \
+                                       and message == MessagePackRpc.REQUEST:
+            pass
 
-        elif msgtype == MessagePackRpc.MSGPACK_RESPONSE:
-            assert message == MessagePackRpc.RESPONSE
+        elif msgtype == MessagePackRpc.MSGPACK_RESPONSE \
+                                      and message == MessagePackRpc.RESPONSE:
+            pass
 
         elif msgtype == MessagePackRpc.MSGPACK_NOTIFY:
-            raise NotImplementedError()
+            raise MessagePackDecodeError("Notifications are not supported")
 
         else:
-            raise MessagePackDecodeError("Unknown message type %r" % msgtype)
+            raise MessagePackDecodeError("Unexpected message type %r"
+                                                                  % (msgtype,))
 
         ctx.method_request_string = '{%s}%s' % (self.app.interface.get_tns(),
                                                                msgname_or_error)
